@@ -195,6 +195,7 @@ class Interp:
         st = self.clear_under(st, loc, keep_markers=False) if self.has_under(st, loc) else st
         st = st.set(loc, val)
         if self.on_write:
+            self.last_written_value = val
             st = self.on_write(self, st, loc, compound)
         return st
 
